@@ -136,6 +136,21 @@ func Package(repoDir, pkgDir string, files []string, outDir string, opts Options
 	conf := types.Config{Importer: importer.ForCompiler(fset, "gc", lookup), FakeImportC: true, Error: func(error) {}}
 	conf.Check(self.ImportPath, fset, astFiles, info) // errors tolerated (cgo); missing types make the rewriter refuse below
 
+	// which named struct type declares which field (for the designated-location table)
+	owners := map[*types.Var]string{}
+	for _, obj := range info.Defs {
+		tn, ok := obj.(*types.TypeName)
+		if !ok {
+			continue
+		}
+		st, ok := tn.Type().Underlying().(*types.Struct)
+		if !ok {
+			continue
+		}
+		for i := 0; i < st.NumFields(); i++ {
+			owners[st.Field(i)] = tn.Name() + "." + st.Field(i).Name()
+		}
+	}
 	res := map[string]string{}
 	for i, af := range astFiles {
 		if !all && !want[names[i]] {
@@ -144,7 +159,7 @@ func Package(repoDir, pkgDir string, files []string, outDir string, opts Options
 		if len(self.CgoFiles) > 0 && contains(self.CgoFiles, names[i]) {
 			continue
 		}
-		rw := &rewriter{fset: fset, info: info, opts: opts, file: names[i], pkgDir: pkgDir}
+		rw := &rewriter{fset: fset, info: info, opts: opts, file: names[i], pkgDir: pkgDir, fieldOwner: owners}
 		if err := rw.file_(af); err != nil {
 			return nil, fmt.Errorf("%s/%s: %v", pkgDir, names[i], err)
 		}
@@ -183,6 +198,8 @@ type rewriter struct {
 	pkgDir  string
 	tmp     int
 	usedMC  bool
+	usedUnsafe bool
+	fieldOwner map[*types.Var]string
 	err     error
 	accSet  map[string]bool
 }
@@ -289,6 +306,12 @@ func (r *rewriter) file_(f *ast.File) error {
 			im.Path.Value = strconv.Quote(np)
 		}
 	}
+	if r.usedUnsafe {
+		spec := &ast.ImportSpec{Name: ast.NewIdent("zzunsafe"), Path: &ast.BasicLit{Kind: token.STRING, Value: strconv.Quote("unsafe")}}
+		gd := &ast.GenDecl{Tok: token.IMPORT, Specs: []ast.Spec{spec}}
+		f.Decls = append([]ast.Decl{gd}, f.Decls...)
+		f.Imports = append(f.Imports, spec)
+	}
 	if r.usedMC {
 		spec := &ast.ImportSpec{Name: ast.NewIdent("zzmcrt"), Path: &ast.BasicLit{Kind: token.STRING, Value: strconv.Quote(mcrtPath)}}
 		gd := &ast.GenDecl{Tok: token.IMPORT, Specs: []ast.Spec{spec}}
@@ -354,13 +377,11 @@ func (r *rewriter) walk(v reflect.Value) {
 				ns := r.stmt(f.Interface().(ast.Stmt))
 				f.Set(reflect.ValueOf(ns))
 			case ft.Kind() == reflect.Slice && ft.Elem() == stmtType:
+				list := make([]ast.Stmt, f.Len())
 				for j := 0; j < f.Len(); j++ {
-					e := f.Index(j)
-					if e.IsNil() {
-						continue
-					}
-					e.Set(reflect.ValueOf(r.stmt(e.Interface().(ast.Stmt))))
+					list[j], _ = f.Index(j).Interface().(ast.Stmt)
 				}
+				f.Set(reflect.ValueOf(r.stmtList(list)))
 			case ft.Kind() == reflect.Slice && ft.Elem() == exprType:
 				for j := 0; j < f.Len(); j++ {
 					e := f.Index(j)
@@ -395,9 +416,219 @@ func (r *rewriter) walk(v reflect.Value) {
 }
 
 func (r *rewriter) block(b *ast.BlockStmt) {
-	for i, s := range b.List {
-		b.List[i] = r.stmt(s)
+	b.List = r.stmtList(b.List)
+}
+
+// stmtList rewrites a statement list; accesses to designated shared locations
+// are reported to the race detector by statements inserted next to the
+// statement that performs them (the statement itself keeps its scope).
+func (r *rewriter) stmtList(list []ast.Stmt) []ast.Stmt {
+	out := make([]ast.Stmt, 0, len(list))
+	for _, s := range list {
+		if s == nil {
+			continue
+		}
+		var before, after []ast.Stmt
+		if len(r.accSet) > 0 {
+			before, after = r.accesses(s)
+		}
+		out = append(out, before...)
+		out = append(out, r.stmt(s))
+		out = append(out, after...)
 	}
+	return out
+}
+
+// simpleBase: an addressable chain of identifiers, selectors, derefs (no calls, no map index).
+func simpleBase(e ast.Expr) bool {
+	switch x := e.(type) {
+	case *ast.Ident:
+		return true
+	case *ast.SelectorExpr:
+		return simpleBase(x.X)
+	case *ast.ParenExpr:
+		return simpleBase(x.X)
+	case *ast.StarExpr:
+		return simpleBase(x.X)
+	}
+	return false
+}
+
+func hasCall(e ast.Expr) bool {
+	found := false
+	ast.Inspect(e, func(n ast.Node) bool {
+		if _, ok := n.(*ast.CallExpr); ok {
+			found = true
+		}
+		if _, ok := n.(*ast.FuncLit); ok {
+			return false
+		}
+		return !found
+	})
+	return found
+}
+
+// designated returns "Type.field" (or the package variable name) if e denotes a designated location.
+func (r *rewriter) designated(e ast.Expr) string {
+	switch x := e.(type) {
+	case *ast.SelectorExpr:
+		sel := r.info.Selections[x]
+		if sel == nil || sel.Kind() != types.FieldVal {
+			return ""
+		}
+		v, ok := sel.Obj().(*types.Var)
+		if !ok {
+			return ""
+		}
+		if name, ok := r.fieldOwner[v]; ok && r.accSet[name] && simpleBase(x.X) {
+			return name
+		}
+	case *ast.Ident:
+		if obj, ok := r.info.Uses[x].(*types.Var); ok && obj.Parent() != nil && obj.Pkg() != nil && obj.Parent() == obj.Pkg().Scope() && r.accSet[x.Name] {
+			return x.Name
+		}
+	}
+	return ""
+}
+
+func (r *rewriter) accStmt(e ast.Expr, write bool, pos token.Pos, name string) ast.Stmt {
+	r.usedMC = true
+	r.usedUnsafe = true
+	w := "false"
+	if write {
+		w = "true"
+	}
+	addr := &ast.UnaryExpr{Op: token.AND, X: &ast.ParenExpr{X: cloneExpr(e)}}
+	return &ast.ExprStmt{X: call(mc("Acc"), call(&ast.SelectorExpr{X: ast.NewIdent("zzunsafe"), Sel: ast.NewIdent("Pointer")}, addr), ast.NewIdent(w), strLit(name+" @ "+r.site(pos)))}
+}
+
+// cloneExpr copies an identifier/selector chain (the copy is printed in a different place).
+func cloneExpr(e ast.Expr) ast.Expr {
+	switch x := e.(type) {
+	case *ast.Ident:
+		return ast.NewIdent(x.Name)
+	case *ast.SelectorExpr:
+		return &ast.SelectorExpr{X: cloneExpr(x.X), Sel: ast.NewIdent(x.Sel.Name)}
+	case *ast.ParenExpr:
+		return &ast.ParenExpr{X: cloneExpr(x.X)}
+	case *ast.StarExpr:
+		return &ast.StarExpr{X: cloneExpr(x.X)}
+	}
+	return e
+}
+
+// accesses collects the designated locations statement s reads or writes in its own
+// expressions (not inside nested blocks or function literals).
+func (r *rewriter) accesses(s ast.Stmt) (before, after []ast.Stmt) {
+	seen := map[string]bool{}
+	add := func(e ast.Expr, write, late bool) {
+		name := r.designated(e)
+		if name == "" {
+			return
+		}
+		key := fmt.Sprint(name, write, r.fset.Position(e.Pos()).Offset)
+		if seen[key] {
+			return
+		}
+		seen[key] = true
+		st := r.accStmt(e, write, e.Pos(), name)
+		if late {
+			after = append(after, st)
+		} else {
+			before = append(before, st)
+		}
+	}
+	written := map[ast.Expr]bool{}
+	var reads func(e ast.Expr)
+	reads = func(e ast.Expr) {
+		if e == nil {
+			return
+		}
+		ast.Inspect(e, func(n ast.Node) bool {
+			switch x := n.(type) {
+			case *ast.FuncLit:
+				return false
+			case *ast.CallExpr:
+				// delete(m, k) writes the map
+				if id, ok := x.Fun.(*ast.Ident); ok && id.Name == "delete" && len(x.Args) == 2 {
+					add(x.Args[0], true, false)
+				}
+			case *ast.SelectorExpr:
+				if !written[x] {
+					add(x, false, false)
+				}
+			case *ast.Ident:
+				if !written[x] {
+					add(x, false, false)
+				}
+			}
+			return true
+		})
+	}
+	target := func(lhs ast.Expr, late bool) {
+		// x.f = ... / x.f[k] = ... / x.f++ : a write of the designated location
+		e := lhs
+		if ix, ok := e.(*ast.IndexExpr); ok {
+			reads(ix.Index)
+			e = ix.X
+		}
+		if r.designated(e) != "" {
+			written[e] = true
+			add(e, true, late)
+			if se, ok := e.(*ast.SelectorExpr); ok {
+				reads(se.X)
+			}
+			return
+		}
+		reads(lhs)
+	}
+	switch x := s.(type) {
+	case *ast.ExprStmt:
+		reads(x.X)
+	case *ast.AssignStmt:
+		late := false
+		for _, rhs := range x.Rhs {
+			if hasCall(rhs) {
+				late = true
+			}
+		}
+		for _, l := range x.Lhs {
+			target(l, late)
+		}
+		for _, rhs := range x.Rhs {
+			reads(rhs)
+		}
+	case *ast.IncDecStmt:
+		target(x.X, false)
+	case *ast.ReturnStmt:
+		for _, e := range x.Results {
+			reads(e)
+		}
+	case *ast.SendStmt:
+		reads(x.Chan)
+		reads(x.Value)
+	case *ast.IfStmt:
+		if x.Init == nil {
+			reads(x.Cond)
+		}
+	case *ast.RangeStmt:
+		reads(x.X)
+	case *ast.SwitchStmt:
+		if x.Init == nil {
+			reads(x.Tag)
+		}
+	case *ast.DeclStmt:
+		if gd, ok := x.Decl.(*ast.GenDecl); ok {
+			for _, sp := range gd.Specs {
+				if vs, ok := sp.(*ast.ValueSpec); ok {
+					for _, v := range vs.Values {
+						reads(v)
+					}
+				}
+			}
+		}
+	}
+	return
 }
 
 // expr is called after the children of e were rewritten.
